@@ -69,8 +69,8 @@ def cases(tier, seed):
             n = len(U) - p - 1
             if (tier == "quick" or not core) and p >= 2 and len(set(U)) > 3:
                 continue  # quick (and the other alphabets of the thorough tier): two interior knots up to degree 1, one at degree 2
-            # thorough: full depth on the core alphabet except for the widest vectors (degree 3 with two interior knots)
-            depth = b["depth"] if (tier == "quick" or (core and not (p == 3 and len(set(U)) > 3))) else 2
+            # thorough: full depth (3) for the knot vectors of the core alphabet with at most 7 entries, depth 2 elsewhere
+            depth = b["depth"] if (tier == "quick" or (core and len(U) <= 7)) else 2
             for i, (lab, P, W) in enumerate(control_vectors(list(U), p, n)):
                 yield (K, p, U, i, depth)
             yield (K, p, U, -1, depth)  # float data
